@@ -43,7 +43,9 @@ void mpz_nextprime(mpz_ptr x, mpz_srcptr y)
   {
      while (!mpz_miller_rabin (x, 23, rnd)) /* we've done 2 rounds already, do another 23 */
      {
-        mpz_add_ui(x, x, 2);
+        /* x is composite: the next candidate above it (the candidate search
+           itself starts beyond its argument, so nothing must be added here,
+           or x + 2 would never be examined) */
         mpz_next_prime_candidate(x, x, rnd);
      }
   }
